@@ -106,3 +106,22 @@ fn kc9_adler_piecewise_fold_copy() {
     assert!((whole & 0xffff) < 65521 && (whole >> 16) < 65521);
     kani::cover!(cut == 2);
 }
+
+/// The tail helpers reduce *whatever* sums their callers hand them: `adler32_len_16` is entered from `adler32_len_64` with a
+/// low sum of up to NMAX * 255 + BASE (far above 2 * BASE) and any high sum below 2^32.  With an empty tail the result must be
+/// the two sums modulo 65521, packed.  (Decides the final reduction for every accumulated value; the accumulation loops are
+/// the fixed-length harnesses above.)
+#[kani::proof]
+#[kani::unwind(3)]
+fn kc9_adler_tail_reduces_any_sum() {
+    let adler: u32 = kani::any();
+    let sum2: u32 = kani::any();
+    kani::assume(adler <= 5552 * 255 + 65521);
+    let got = generic::adler32_len_16(adler, &[], sum2);
+    let lo = got & 0xffff;
+    let hi = got >> 16;
+    assert!(lo < 65521 && hi < 65521, "both halves are reduced");
+    assert!(lo == adler % 65521 && hi == sum2 % 65521, "and congruent to the sums handed in");
+    kani::cover!(adler >= 2 * 65521 && lo == 5);
+    kani::cover!(sum2 == u32::MAX);
+}
